@@ -15,7 +15,7 @@ from __future__ import annotations
 
 import ast
 
-from ..cachepaths import READS, STAT_FIELDS, WRITES, classify, counted_methods, hit_names, self_attr
+from ..cachepaths import READS, STAT_FIELDS, WRITES, classify, counted_methods, hit_names, sanctioned_helpers, self_attr
 from ..common import all_functions, attr_stores, seg, short
 from ..model import AnalysisError, walk_no_nested
 from ..paths import calls_in
@@ -148,14 +148,16 @@ def run(ctx: Ctx) -> None:
     hit_rule(ctx)
 
     r = ctx.rule("R09.own", "hits/accesses/last_was_hit have no writer outside the counted methods")
-    allowed = {f.qname for f, _ in counted_methods(m)}
+    allowed = {f.qname for f, _ in counted_methods(m)} | sanctioned_helpers(m)
     for fld in STAT_FIELDS:
         for f, st, t in attr_stores(m, fld):
             ok = f.qname in allowed or (f.cls is not None and f.cls.name in ("BaseCacheMemorySystem", "InstructionMemoryCacheSystem")
                                         and f.name in ("__init__", "reset"))
             r.check(ok, f"{short(f.qname)}|{fld}", f.loc(st),
                     f"{short(f.qname)} writes the cache statistic `{fld}`: `{seg(f, st)}`")
-    r.floor(35)
+    # (the count of writers shrinks when duplicated blocks are merged into a helper: the floor only
+    # guards against the three fields vanishing -- __init__, reset and one counted writer each)
+    r.floor(9)
 
     once_rule(ctx)
     from ..siblingrule import sibling_rule
